@@ -48,6 +48,10 @@ pub enum ROp {
     /// `exact_threshold` = exactly 10 000 keys in total instead (largest sequential call)
     BatchDelete { ks: Vec<u16>, filler_seed: u32, exact_threshold: bool },
     Save,
+    /// a save that is made to fail with an I/O error: a directory sits where the temporary file
+    /// (`at_temp`) or the final file has to go, and is taken away again afterwards. What is on disk
+    /// stays what it was; the marks stay pending and a later save has to write them
+    SaveBlocked { at_temp: bool },
     /// a new db loaded from the path (unsaved marks are discarded)
     Load,
     /// save, then load
@@ -136,6 +140,7 @@ fn op_strategy() -> impl Strategy<Value = ROp> {
         8 => (proptest::collection::vec(any::<u16>(), 0..8), any::<u32>(), proptest::bool::weighted(0.08))
             .prop_map(|(ks, filler_seed, exact_threshold)| ROp::BatchDelete { ks, filler_seed, exact_threshold }),
         3 => Just(ROp::Save),
+        2 => any::<bool>().prop_map(|at_temp| ROp::SaveBlocked { at_temp }),
         3 => Just(ROp::Load),
         10 => Just(ROp::Reload),
         8 => (prop_oneof![2 => 20u16..=120, 1 => 1u16..=300, 1 => 24u16..=27], 0u8..3, mark_strategy())
@@ -182,6 +187,7 @@ struct Run {
     shared_head_diff_bucket: bool,
     multi_page_bucket: bool,
     load_discards: bool,
+    save_failed: bool,
     span_used: bool,
     remark_after_delete: bool,
 }
@@ -318,6 +324,7 @@ impl Run {
             ROp::Delete { ks, absent } => format!("op#{i} delete_keys({} keys)", ks.len() + *absent as usize),
             ROp::BatchDelete { exact_threshold, .. } => format!("op#{i} delete_keys({})", if *exact_threshold { "exactly 10000 keys" } else { "> 10000 keys, batch path" }),
             ROp::Save => format!("op#{i} save"),
+            ROp::SaveBlocked { at_temp } => format!("op#{i} save blocked at the {} path", if *at_temp { "temporary" } else { "final" }),
             ROp::Load => format!("op#{i} load"),
             ROp::Reload => format!("op#{i} save+load"),
             ROp::Many { n, mark, .. } => format!("op#{i} {n} x {mark:?}"),
@@ -357,6 +364,34 @@ impl Run {
                 self.delete(&list);
             }
             ROp::Save => self.save(&what)?,
+            ROp::SaveBlocked { at_temp } => {
+                let tmp = self.path.with_extension("tmp");
+                let aside = self.path.with_extension("aside");
+                let block = if *at_temp { tmp.clone() } else { self.path.clone() };
+                let had_final = !*at_temp && self.path.is_file();
+                if had_final {
+                    let _ = std::fs::rename(&self.path, &aside);
+                }
+                let _ = std::fs::remove_file(&tmp);
+                let blocked = std::fs::create_dir_all(&block).is_ok() && std::fs::write(block.join("occupied"), b"x").is_ok();
+                let r = self.db.save();
+                let _ = std::fs::remove_dir_all(&block);
+                if had_final {
+                    let _ = std::fs::rename(&aside, &self.path);
+                }
+                let _ = std::fs::remove_file(&tmp);
+                match r {
+                    Err(_) => self.save_failed = true,
+                    // nothing was pending (save is then a no-op), or the obstacle could not be placed
+                    Ok(()) if self.disk == self.model || !blocked => {}
+                    Ok(()) => {
+                        return Err((
+                            "C05:residency:save-reports-success-although-the-file-could-not-be-written".into(),
+                            format!("{what}: save() returned Ok with pending marks while a directory occupied {}", block.display()),
+                        ));
+                    }
+                }
+            }
             ROp::Load => self.load(&what)?,
             ROp::Reload => {
                 self.save(&what)?;
@@ -404,6 +439,7 @@ pub fn check(case: &ResCase) -> Verdict {
         shared_head_diff_bucket: false,
         multi_page_bucket: false,
         load_discards: false,
+        save_failed: false,
         span_used: false,
         remark_after_delete: false,
     };
@@ -421,6 +457,7 @@ pub fn check(case: &ResCase) -> Verdict {
         .class_if(run.multi_page_bucket, "bucket-with>25-keys(multi-page)")
         .class_if(run.shared_head_diff_bucket, "same-first-8-bytes-in-different-buckets")
         .class_if(run.load_discards, "load-discards-unsaved-marks")
+        .class_if(run.save_failed, "save-failed-with-io-error")
         .class_if(run.span_used, "span-non-resident")
         .class_if(run.remark_after_delete, "resident-again-after-delete")
 }
